@@ -14,4 +14,7 @@ PROPS = {
     "C02": P(gomaxprocs=[1, 2, 4, 4]),
     "C08": P(gomaxprocs=[1, 2, 4, 4]),
     "C09": P(gomaxprocs=[1, 2, 4, 4]),
+    "C12": P(),
+    "C13": P(),
+    "C14": P(race={"thorough": True}),
 }
